@@ -643,6 +643,7 @@ type payEvent struct {
 	PDefs     bool       `json:"pdefs_ok"`
 	PVals     bool       `json:"pvals_same"`
 	Unknown   bool       `json:"unknownrel"` // the payload has a relationship member the schema does not have
+	Trailing  bool       `json:"trailing"`   // something other than white space follows the resource object
 }
 
 type payCase struct {
@@ -656,7 +657,10 @@ type payCase struct {
 	// UnknownRel: shape of a relationship member "zr" the schema does not have ("" = none)
 	UnknownRel string `json:"unknownrel"`
 	NoDataForm int    `json:"nodataform"` // which members an object without data carries
+	Trailing   string `json:"trailing"`   // text after the resource object (white space is harmless, anything else is not JSON)
 }
+
+var trailings = []string{" \n", ",", "]", " x", " null", "{}", "}", "\x00"}
 
 var noDataForms = []string{`{"links":{"self":"/s"},"meta":{"a":1}}`, `{"links":{"self":"/s"}}`, `{"meta":{"a":1}}`, `{}`}
 
@@ -711,6 +715,7 @@ func renderPayload(c payCase) string {
 		b.WriteString(`,"relationships":{` + strings.Join(rels, ",") + `}`)
 	}
 	b.WriteByte('}')
+	b.WriteString(c.Trailing)
 	return b.String()
 }
 
@@ -729,7 +734,7 @@ func idsOf(v any) []string {
 
 func runPayload(c payCase) payEvent {
 	ev := payEvent{Ev: "payload", Impl: c.Impl, Present: sortedKeys(c.Attrs), PAttrs: []string{}, PRels: []string{}, WantRels: []string{},
-		Unknown: c.UnknownRel != ""}
+		Unknown: c.UnknownRel != "", Trailing: strings.TrimSpace(c.Trailing) != ""}
 	schema := akSchema(c.Impl)
 	payload := []byte(renderPayload(c))
 	for _, r := range c.Rels {
@@ -1178,6 +1183,10 @@ func codecOtherModes(mode string, rng *rand.Rand, stt *stats, w *evWriter, n int
 				c.Rels = append(c.Rels, ro2, rm2)
 			}
 			c.NoDataForm = rng.Intn(len(noDataForms))
+			if rng.Intn(10) == 0 {
+				c.Trailing = trailings[rng.Intn(len(trailings))]
+				stt.class("trailing")
+			}
 			if rng.Intn(8) == 0 {
 				c.UnknownRel = []string{"nodata", "nodata", "null", "ident", "list"}[rng.Intn(5)]
 				stt.class("unknownrel:" + c.UnknownRel)
